@@ -30,6 +30,7 @@ class Run:
         self.fired = Counter()
         self.probes = Counter()
         self.states = set()
+        self.cases = set()
         self.samples = []
         self._h = hashlib.sha256()
         self.nev = 0
@@ -64,6 +65,10 @@ class Run:
         if self.E is not None:
             self.E.close()
             self.E = None
+        for k, v in list(self.scratch.items()):
+            if isinstance(v, Executor):
+                v.close()
+                del self.scratch[k]
 
     # -- execution and logging
     def logev(self, *parts):
@@ -104,6 +109,10 @@ class Run:
     def sample(self, s):
         if len(self.samples) < 3:
             self.samples.append(s)
+
+    def case_mark(self, *parts):
+        """A distinct, non-trivial evaluated case (what evidence counts as distinct_nontrivial)."""
+        self.cases.add(hashlib.sha1(json.dumps(parts, sort_keys=True, default=str).encode()).hexdigest()[:12])
 
     def state_mark(self, *parts):
         self.states.add(hashlib.sha1(json.dumps(parts, sort_keys=True, default=str).encode()).hexdigest()[:12])
@@ -160,6 +169,7 @@ def execute(env, profile, seed, tier, replay=None):
         "fired": dict(run.fired),
         "probes": dict(run.probes),
         "states": sorted(run.states),
+        "cases": sorted(run.cases),
         "samples": run.samples,
         "hash_seed": env.hash_seed,
     }
